@@ -228,6 +228,12 @@ def splice(F, b, G, propagated):
     _reset(F)
 
 
+def _propagates(c):
+    """the call's Result / Option is handed on unchanged (`?` or returned): only then are the callee's error exits the caller's.  A result
+    that the caller matches on is handled by the caller's own arms."""
+    return bool(c[0]) and c[1] in ("?", "returned")
+
+
 def _callee_key(f, t):
     r = t.get("res")
     if r is None:
@@ -285,7 +291,7 @@ def inline_new_functions(prog, known=None, max_blocks=400):
                 continue
             dest = t["dest"]
             try:
-                propagated = (dest["l"] == 0 and not dest.get("p")) or bool(analysis.consumed(F, b)[0])
+                propagated = (dest["l"] == 0 and not dest.get("p")) or _propagates(analysis.consumed(F, b))
             except Exception:
                 propagated = False
             saved = (copy.deepcopy(F.blocks[b]), list(F.raw["locals"]), dict(F.raw.get("names") or {}), len(F.blocks), F.inl_err_locals, F.inl_from)
@@ -381,7 +387,7 @@ def deep_fn(prog, f, depth=2, max_blocks=160, _stack=frozenset()):
                 continue
             dest = t["dest"]
             try:
-                propagated = (dest["l"] == 0 and not dest.get("p")) or bool(analysis.consumed(g, b)[0])
+                propagated = (dest["l"] == 0 and not dest.get("p")) or _propagates(analysis.consumed(g, b))
             except Exception:
                 propagated = False
             saved = (copy.deepcopy(g.blocks[b]), list(g.raw["locals"]), dict(g.raw.get("names") or {}), len(g.blocks), g.inl_err_locals, g.inl_from)
